@@ -318,7 +318,9 @@ impl EmmyLuaAnalysis {
     }
 
     /// 清理文件系统中不再存在的文件
-    pub fn cleanup_nonexistent_files(&mut self) {
+    ///
+    /// Returns the uris that were removed so that callers can clear what they published for them.
+    pub fn cleanup_nonexistent_files(&mut self) -> Vec<Uri> {
         let mut files_to_remove = Vec::new();
 
         // 获取所有当前在VFS中的文件
@@ -340,9 +342,10 @@ impl EmmyLuaAnalysis {
         }
 
         // 移除不存在的文件
-        for uri in files_to_remove {
-            self.remove_file_by_uri(&uri);
+        for uri in &files_to_remove {
+            self.remove_file_by_uri(uri);
         }
+        files_to_remove
     }
 }
 
